@@ -5,7 +5,7 @@ use vh::rng::Hasher;
 use vh::sched::{Controller, Mode, Token};
 use vh::trk::*;
 use vh::watchdog::Watchdog;
-use vh::{json, Cli, Report, Rng};
+use vh::{json, Cli, Report, Rng, Value};
 
 #[derive(Clone, Debug)]
 enum Plan {
@@ -30,71 +30,159 @@ fn script_for(plan: &Plan, shards: usize, ncand: usize) -> Option<Vec<Token>> {
     Some(v)
 }
 
-struct RunOut {
-    recs: Vec<Vec<Rec>>,
-    pres: Vec<Vec<LiveTrack>>,
-    epochs: Vec<usize>,
+/// what one operation of the history lets the caller observe
+#[derive(Clone, Debug, PartialEq)]
+enum Obs {
+    Recs(Vec<Rec>),
+    Wasted(Vec<WastedRec>),
+    Idle(Vec<Rec>),
+    Epoch(u64, usize),
 }
 
-fn run(cfg: &Cfg, calls: &[(u64, Vec<Det>)], plan: &Plan, ctl: Option<&Controller>, rep: &mut Report, keep_pre: bool, wd: Option<&Watchdog>) -> RunOut {
+struct RunOut {
+    obs: Vec<Obs>,
+    pres: Vec<Vec<LiveTrack>>,
+    epochs: Vec<usize>,
+    /// tracks held (live store + wasted store) after the operation; None where the run was not quiescent
+    totals: Vec<Option<usize>>,
+}
+
+fn drain(pending: &mut Vec<(usize, std::sync::mpsc::Receiver<Vec<(u64, Vec<Rec>)>>)>, out: &mut RunOut) -> bool {
+    for (k, rx) in pending.drain(..) {
+        match rx.recv() {
+            Ok(mut v) if v.len() == 1 => out.obs[k] = Obs::Recs(v.pop().unwrap().1),
+            _ => return false,
+        }
+    }
+    true
+}
+
+/// `pipelined` (batch kinds only): every predict is a one-scene batch whose result object is handed to a consumer thread
+/// started before the call; the next batch is submitted without waiting for the previous results (the second retrieval
+/// discipline the batch API allows). Lifecycle operations wait until everything submitted so far has been retrieved.
+fn run(cfg: &Cfg, ops: &[Op], plan: &Plan, pipelined: bool, ctl: Option<&Controller>, rep: &mut Report, keep_pre: bool, wd: Option<&Watchdog>) -> Option<RunOut> {
     let gated = matches!(plan, Plan::WorkerLast(_) | Plan::WorkerFirst(_));
     if let (Some(w), false) = (wd, gated) {
-        w.arm(format!("cfg={:?} plan={:?}", cfg, plan));
+        w.arm(format!("cfg={:?} plan={:?} pipelined={}", cfg, plan, pipelined));
     }
     let mut trk = AnyTracker::new(cfg);
-    let mut out = RunOut { recs: vec![], pres: vec![], epochs: vec![] };
-    for (scene, dets) in calls {
-        out.pres.push(if keep_pre { trk.live() } else { vec![] });
-        out.epochs.push(trk.epoch(*scene) + 1);
-        if let Some(c) = ctl {
-            match plan {
-                Plan::Free => c.set_mode(Mode::Record),
-                Plan::Delay(seed) => c.set_mode(Mode::Delay { seed: *seed, intensity: 50, max_sleep_us: 300 }),
-                p => c.set_mode(Mode::Gate { script: script_for(p, cfg.shards, dets.len()).unwrap() }),
-            }
-        }
-        let r = trk.predict(*scene, dets);
-        if let Some(c) = ctl {
-            let (ev, stalled) = c.finish();
-            if stalled {
-                rep.count("gate_scripts_stalled");
-            }
-            // order in which the workers delivered their distance chunks in this call
-            let mut h = Hasher::new();
-            let mut n = 0;
-            for (s, a) in &ev {
-                if *s == "store.cmd.end" && (a & 0xff) == 2 {
-                    h.u64(a >> 8);
-                    n += 1;
+    let mut out = RunOut { obs: vec![], pres: vec![], epochs: vec![], totals: vec![] };
+    let mut pending = vec![];
+    let set_mode = |c: &Controller, ndets: Option<usize>| match (plan, ndets) {
+        (Plan::Free, _) => c.set_mode(Mode::Record),
+        (Plan::Delay(seed), _) => c.set_mode(Mode::Delay { seed: *seed, intensity: 50, max_sleep_us: 300 }),
+        (p, Some(n)) => c.set_mode(Mode::Gate { script: script_for(p, cfg.shards, n).unwrap() }),
+        (_, None) => c.set_mode(Mode::Record),
+    };
+    if let (Some(c), true) = (ctl, pipelined) {
+        set_mode(c, None);
+    }
+    let held = |t: &AnyTracker| t.active_stats().iter().sum::<usize>() + t.wasted_stats().iter().sum::<usize>();
+    for (k, op) in ops.iter().enumerate() {
+        match op {
+            Op::Predict { scene, dets } => {
+                out.pres.push(if keep_pre { trk.live() } else { vec![] });
+                out.epochs.push(if pipelined { 0 } else { trk.epoch(*scene) + 1 });
+                if pipelined && !dets.is_empty() {
+                    out.obs.push(Obs::Recs(vec![]));
+                    out.totals.push(None);
+                    pending.push((k, trk.submit_with_consumer(&[(*scene, dets.clone())])));
+                } else {
+                    if let (Some(c), false) = (ctl, pipelined) {
+                        set_mode(c, Some(dets.len()));
+                    }
+                    let r = trk.predict(*scene, dets);
+                    if let (Some(c), false) = (ctl, pipelined) {
+                        let (ev, stalled) = c.finish();
+                        if stalled {
+                            rep.count("gate_scripts_stalled");
+                        }
+                        // order in which the workers delivered their distance chunks in this call
+                        let mut h = Hasher::new();
+                        let mut n = 0;
+                        for (s, a) in &ev {
+                            if *s == "store.cmd.end" && (a & 0xff) == 2 {
+                                h.u64(a >> 8);
+                                n += 1;
+                            }
+                        }
+                        if n > 1 {
+                            rep.seen("chunk_arrival_order_signatures", h.get());
+                        }
+                    }
+                    out.obs.push(Obs::Recs(r));
+                    out.totals.push(if pipelined { None } else { Some(held(&trk)) });
                 }
             }
-            if n > 1 {
-                rep.seen("chunk_arrival_order_signatures", h.get());
+            other => {
+                if !drain(&mut pending, &mut out) {
+                    return None;
+                }
+                out.pres.push(vec![]);
+                out.epochs.push(0);
+                let o = match other {
+                    Op::Skip { scene, n } => {
+                        trk.skip_epochs(*scene, *n);
+                        Obs::Epoch(*scene, trk.epoch(*scene))
+                    }
+                    Op::Wasted => {
+                        let mut w = trk.wasted();
+                        w.sort_by_key(|t| t.id);
+                        Obs::Wasted(w)
+                    }
+                    Op::Idle { scene } => {
+                        let mut v = trk.idle(*scene);
+                        v.sort_by_key(|t| t.id);
+                        Obs::Idle(v)
+                    }
+                    _ => Obs::Epoch(0, 0),
+                };
+                out.obs.push(o);
+                out.totals.push(Some(held(&trk)));
             }
         }
-        out.recs.push(r);
         if let Some(w) = wd {
             w.beat();
         }
+    }
+    if !drain(&mut pending, &mut out) {
+        return None;
+    }
+    if let (Some(c), true) = (ctl, pipelined) {
+        let _ = c.finish();
     }
     drop(trk);
     if let Some(w) = wd {
         w.disarm();
     }
-    out
+    Some(out)
+}
+
+/// variant-run ids -> reference-run ids (ids the reference never saw become fresh ids, i.e. new tracks)
+fn translate(recs: &[Rec], rev: &HashMap<u64, u64>) -> Vec<Rec> {
+    recs.iter().map(|r| {
+        let mut t = r.clone();
+        t.id = rev.get(&r.id).cloned().unwrap_or((1u64 << 62) | r.id);
+        t
+    }).collect()
 }
 
 fn main() {
     let cli = Cli::parse();
     let mut rep = Report::new("C05", &cli);
-    rep.note("rule", json!("case = Sort / VisualSort history of 20..50 predict calls (crowd / convoy / crossing / random presets over 1..2 scenes, no bit-identical detections). Reference run: 1 shard, no perturbation. The same history is then run for every shard count 2..8 under several schedules installed at the guarded worker schedule points: free, seeded random delay plans, and gate scripts that force a chosen worker to deliver all of its distance chunks last (or first), so the arrival order of the partial results - which feeds matrix row/column order and hash-map insertion order - is varied systematically. Records must be identical to the reference, track ids included. A grouping difference is handed to the explain-divergence oracle (violation unless both outcomes are valid optimal associations per the C02 / C12 references = near tie, counted); equal grouping with different numbers or ids is always a violation. Non-trivial: (history, shard count, plan) runs with >= 2 shards whose calls had >= 2 candidates; distinct chunk-arrival-order signatures are counted."));
+    rep.note("rule", json!("case = Sort / VisualSort / BatchSort / BatchVisualSort history of 20..50 operations (predict calls from the crowd / convoy / crossing / random presets over 1..2 scenes, no bit-identical detections; a third of the histories also contain skip_epochs, wasted and idle_tracks calls, whose return values - and the number of tracks held - are compared as well). Batch kinds are driven with one-scene batches, sequentially and pipelined (consumer thread per batch, next batch submitted before the previous results are read); their ids are compared up to the incrementally built bijection. Reference run: 1 shard, no perturbation. The same history is then run for every shard count 2..8 under several schedules installed at the guarded worker schedule points: free, seeded random delay plans, and gate scripts that force a chosen worker to deliver all of its distance chunks last (or first), so the arrival order of the partial results - which feeds matrix row/column order and hash-map insertion order - is varied systematically. Records must be identical to the reference, track ids included. A grouping difference is handed to the explain-divergence oracle (violation unless both outcomes are valid optimal associations per the C02 / C12 references = near tie, counted); equal grouping with different numbers or ids is always a violation. Non-trivial: (history, shard count, plan) runs with >= 2 shards whose calls had >= 2 candidates; distinct chunk-arrival-order signatures are counted."));
     rep.note("assumptions", json!(["inputs without exact ties (generic float positions); residual near-ties are recognised by the reference objective and counted, capped at 0.1% of compared calls"]));
     let ctl = if cli.small { None } else { Some(Controller::install()) };
     let wd = if cli.small { None } else { Some(Watchdog::start(&cli, "C05", ctl.clone())) };
     let n = cli.cases(96, 1500);
     for idx in cli.index_range(n) {
         let mut rng = Rng::for_case(cli.seed, cli.shard, idx);
-        let kind = if idx % 3 == 2 { Kind::Visual } else { Kind::Sort };
+        let kind = match idx % 6 {
+            2 => Kind::Visual,
+            3 => Kind::BatchSort,
+            5 => Kind::BatchVisual,
+            _ => Kind::Sort,
+        };
         // (the case index is per process, so rare variants are drawn, not taken modulo)
         let wide = rng.chance(0.15);
         let mut cfg = gen_cfg(&mut rng, kind);
@@ -106,6 +194,13 @@ fn main() {
             cfg.pos = PosMetric::Maha;
             cfg.min_conf = 0.01;
         }
+        // a third of the histories mix lifecycle calls in (skip, wasted, idle): what they return is part of what the
+        // tracker reports; many tracks then expire together and are collected across several shards at once
+        let lifecycle = !wide && rng.chance(0.35);
+        if lifecycle {
+            cfg.max_idle = rng.usize(3);
+            rep.count("histories_with_lifecycle_calls");
+        }
         let w = WorldOpts {
             scenes: 1 + rng.usize(2),
             same_region: rng.chance(0.3),
@@ -115,69 +210,145 @@ fn main() {
             feat_dim: 4,
             duplicates: false,
             // about every 7th history has wide frames (36..45 objects): shards x detections exceeds a few hundred partial results
-            nobj: if wide { 36 + rng.usize(10) } else { 2 + rng.usize(6) },
+            nobj: if wide { 36 + rng.usize(10) } else if lifecycle { 4 + rng.usize(9) } else { 2 + rng.usize(6) },
             steps: 40,
             low_quality: false,
             avoid_coincident: kind.is_visual() && (cfg.vis.own_use + cfg.vis.own_collect > 0.0),
             low_conf,
             vary_nobj: false,
         };
-        let h = HistOpts { len: if cli.small { 3 } else if wide { 6 } else { 20 + rng.usize(31) }, lifecycle_ops: false, clear_wasted: false, auto_waste_ops: false, batches: false, empty_calls: true };
+        let h = HistOpts { len: if cli.small { 3 } else if wide { 6 } else { 20 + rng.usize(31) }, lifecycle_ops: lifecycle, clear_wasted: false, auto_waste_ops: false, batches: false, empty_calls: true };
         let ops = gen_history(&mut rng, &w, &h);
-        let calls: Vec<(u64, Vec<Det>)> = ops.iter().filter_map(|o| if let Op::Predict { scene, dets } = o { Some((*scene, dets.clone())) } else { None }).collect();
+        let npredict = ops.iter().filter(|o| matches!(o, Op::Predict { .. })).count();
         rep.eval();
-        let base = run(&cfg, &calls, &Plan::Free, None, &mut rep, true, wd.as_deref());
+        rep.count(&format!("histories/{:?}", kind));
+        let base = match run(&cfg, &ops, &Plan::Free, false, None, &mut rep, true, wd.as_deref()) {
+            Some(b) => b,
+            None => {
+                rep.violation(&format!("C05/{:?}/result-never-delivered", kind), idx, json!({"cfg": cfg.js(), "run": "reference"}));
+                continue;
+            }
+        };
         let shard_counts: Vec<usize> = if cli.small { vec![3] } else { (2..=8).collect() };
         'variants: for shards in shard_counts {
             let mut c2 = cfg.clone();
             c2.shards = shards;
-            let mut plans = vec![Plan::Free, Plan::Delay(rng.u64())];
+            // (plan, pipelined)
+            let mut plans: Vec<(Plan, bool)> = vec![(Plan::Free, false), (Plan::Delay(rng.u64()), false)];
             if !cli.small {
-                plans.push(Plan::WorkerLast(rng.below(shards as u64)));
+                plans.push((Plan::WorkerLast(rng.below(shards as u64)), false));
+                if kind.is_batch() {
+                    plans.push((Plan::Delay(rng.u64()), true));
+                    plans.push((Plan::Free, true));
+                }
                 if cli.thorough() {
-                    plans.push(Plan::WorkerFirst(rng.below(shards as u64)));
-                    plans.push(Plan::Delay(rng.u64()));
-                    plans.push(Plan::WorkerLast(rng.below(shards as u64)));
+                    plans.push((Plan::WorkerFirst(rng.below(shards as u64)), false));
+                    plans.push((Plan::Delay(rng.u64()), false));
+                    plans.push((Plan::WorkerLast(rng.below(shards as u64)), false));
                 }
             } else {
                 plans.truncate(1);
             }
-            for plan in plans {
-                let out = run(&c2, &calls, &plan, ctl.as_deref(), &mut rep, false, wd.as_deref());
+            for (plan, pipelined) in plans {
+                let out = match run(&c2, &ops, &plan, pipelined, ctl.as_deref(), &mut rep, false, wd.as_deref()) {
+                    Some(o) => o,
+                    None => {
+                        rep.violation(&format!("C05/{:?}/result-never-delivered", kind), idx, json!({"cfg": cfg.js(), "shards": shards, "plan": format!("{:?}", plan), "pipelined": pipelined}));
+                        continue 'variants;
+                    }
+                };
                 rep.count("variant_runs");
+                if pipelined {
+                    rep.count("variant_runs_pipelined");
+                }
+                // map: reference id -> variant id, rev: variant id -> reference id
                 let mut map: HashMap<u64, u64> = HashMap::new();
                 let mut rev: HashMap<u64, u64> = HashMap::new();
-                for (k, (a, b)) in base.recs.iter().zip(out.recs.iter()).enumerate() {
-                    rep.count("calls_compared");
-                    if a == b {
-                        let _ = bijection_check(a, b, &mut map, &mut rev);
-                        continue;
-                    }
-                    let ctx = json!({"cfg": cfg.js(), "shards": shards, "plan": format!("{:?}", plan), "call": k, "reference(1 shard)": a.iter().map(|r| r.js()).collect::<Vec<_>>(), "variant": b.iter().map(|r| r.js()).collect::<Vec<_>>()});
-                    if same_grouping(a, b, &map, &rev) {
-                        rep.violation(&format!("C05/{:?}/records-differ-with-equal-grouping", kind), idx, ctx);
-                    } else {
-                        // explain: is the variant's outcome a valid optimal association from the (shared) pre-state?
-                        let (scene, dets) = &calls[k];
-                        let ja = judge_call(&cfg, *scene, base.epochs[k], dets, a, &base.pres[k]);
-                        let jb = judge_call(&cfg, *scene, base.epochs[k], dets, b, &base.pres[k]);
-                        match (ja, jb) {
-                            (Judgement::Valid, Judgement::Valid) | (Judgement::Undecidable(_), _) | (_, Judgement::Undecidable(_)) => rep.count("tie_divergences"),
-                            (Judgement::Invalid(sig, d), _) => rep.violation(&format!("C05/{:?}/grouping-differs/reference-run-invalid/{}", kind, sig), idx, json!({"ctx": ctx, "detail": d})),
-                            (_, Judgement::Invalid(sig, d)) => rep.violation(&format!("C05/{:?}/grouping-differs/variant-outcome-invalid/{}", kind, sig), idx, json!({"ctx": ctx, "detail": d})),
+                for k in 0..ops.len() {
+                    let ctx = |a: Value, b: Value| json!({"cfg": cfg.js(), "shards": shards, "plan": format!("{:?}", plan), "pipelined": pipelined, "op_index": k, "op": format!("{:?}", ops[k]).chars().take(160).collect::<String>(), "reference(1 shard)": a, "variant": b});
+                    if let (Some(x), Some(y)) = (base.totals[k], out.totals[k]) {
+                        if x != y {
+                            rep.violation(&format!("C05/{:?}/tracks-held-differs", kind), idx, ctx(json!(x), json!(y)));
+                            continue 'variants;
                         }
                     }
-                    continue 'variants;
+                    match (&base.obs[k], &out.obs[k]) {
+                        (Obs::Recs(a), Obs::Recs(b)) => {
+                            rep.count("calls_compared");
+                            let equal = if kind.is_batch() {
+                                same_grouping(a, b, &map, &rev) && bijection_check(a, b, &mut map, &mut rev).is_none()
+                            } else {
+                                let e = a == b;
+                                if e {
+                                    let _ = bijection_check(a, b, &mut map, &mut rev);
+                                }
+                                e
+                            };
+                            if equal {
+                                continue;
+                            }
+                            let c = ctx(json!(a.iter().map(|r| r.js()).collect::<Vec<_>>()), json!(b.iter().map(|r| r.js()).collect::<Vec<_>>()));
+                            if same_grouping(a, b, &map, &rev) {
+                                rep.violation(&format!("C05/{:?}/records-differ-with-equal-grouping", kind), idx, c);
+                            } else if let Op::Predict { scene, dets } = &ops[k] {
+                                // explain: is the variant's outcome a valid optimal association from the reference's
+                                // (quiescent) pre-state? A correct pipelined run acts on exactly that state as well.
+                                let bt = translate(b, &rev);
+                                let ja = judge_call(&cfg, *scene, base.epochs[k], dets, a, &base.pres[k]);
+                                let jb = judge_call(&cfg, *scene, base.epochs[k], dets, &bt, &base.pres[k]);
+                                match (ja, jb) {
+                                    (Judgement::Valid, Judgement::Valid) | (Judgement::Undecidable(_), _) | (_, Judgement::Undecidable(_)) => rep.count("tie_divergences"),
+                                    (Judgement::Invalid(sig, d), _) => rep.violation(&format!("C05/{:?}/grouping-differs/reference-run-invalid/{}", kind, sig), idx, json!({"ctx": c, "detail": d})),
+                                    (_, Judgement::Invalid(sig, d)) => rep.violation(&format!("C05/{:?}/grouping-differs/variant-outcome-invalid/{}", kind, sig), idx, json!({"ctx": c, "detail": d})),
+                                }
+                            }
+                            continue 'variants;
+                        }
+                        (Obs::Wasted(a), Obs::Wasted(b)) => {
+                            rep.count("wasted_calls_compared");
+                            rep.add("wasted_tracks_compared", a.len() as u64);
+                            let mut bt: Vec<WastedRec> = b.iter().map(|t| {
+                                let mut t = t.clone();
+                                if kind.is_batch() {
+                                    t.id = rev.get(&t.id).cloned().unwrap_or((1u64 << 62) | t.id);
+                                }
+                                t
+                            }).collect();
+                            bt.sort_by_key(|t| t.id);
+                            if *a != bt {
+                                let ids = |v: &[WastedRec]| json!(v.iter().map(|t| json!([t.id, t.length, t.epoch])).collect::<Vec<_>>());
+                                rep.violation(&format!("C05/{:?}/wasted-differs", kind), idx, ctx(ids(a), ids(&bt)));
+                                continue 'variants;
+                            }
+                        }
+                        (Obs::Idle(a), Obs::Idle(b)) => {
+                            rep.count("idle_calls_compared");
+                            let mut bt = if kind.is_batch() { translate(b, &rev) } else { b.clone() };
+                            bt.sort_by_key(|t| t.id);
+                            if *a != bt {
+                                rep.violation(&format!("C05/{:?}/idle-differs", kind), idx, ctx(json!(a.iter().map(|r| r.id).collect::<Vec<_>>()), json!(bt.iter().map(|r| r.id).collect::<Vec<_>>())));
+                                continue 'variants;
+                            }
+                        }
+                        (x, y) => {
+                            if x != y {
+                                rep.violation(&format!("C05/{:?}/epoch-differs", kind), idx, ctx(json!(format!("{:?}", x)), json!(format!("{:?}", y))));
+                                continue 'variants;
+                            }
+                        }
+                    }
                 }
-                if calls.iter().any(|c| c.1.len() >= 2) {
+                if ops.iter().any(|o| matches!(o, Op::Predict { dets, .. } if dets.len() >= 2)) {
                     let mut hh = Hasher::new();
-                    hh.u64(idx).u64(shards as u64).str(&format!("{:?}", plan));
+                    hh.u64(idx).u64(shards as u64).str(&format!("{:?}{}", plan, pipelined));
                     rep.nontrivial(hh.get());
                 }
             }
         }
         if rep.want_sample() {
-            rep.sample(json!({"cfg": cfg.js(), "calls": calls.len(), "first_call": calls.first().map(|c| c.1.iter().map(|d| d.js()).collect::<Vec<_>>()), "reference_ids_first_calls": base.recs.iter().take(3).map(|r| r.iter().map(|x| x.id).collect::<Vec<_>>()).collect::<Vec<_>>()}));
+            let first = ops.iter().find_map(|o| if let Op::Predict { dets, .. } = o { Some(dets.iter().map(|d| d.js()).collect::<Vec<_>>()) } else { None });
+            rep.sample(json!({"cfg": cfg.js(), "operations": ops.len(), "predict_calls": npredict, "first_call": first,
+                "reference_ids_first_calls": base.obs.iter().filter_map(|o| if let Obs::Recs(r) = o { Some(r.iter().map(|x| x.id).collect::<Vec<_>>()) } else { None }).take(3).collect::<Vec<_>>()}));
         }
     }
     rep.finish();
